@@ -55,7 +55,8 @@ type c09Scenario struct {
 	ReHandler         int    `json:"panic_handler_replaced,omitempty"` // 1: after the first workers exist, before any submission; 2: by a thread while the pool works
 	SlowHandler       bool   `json:"first_panic_handler_call_blocks_until_the_other_jobs_ran,omitempty"`
 	Retune            []int  `json:"batch_size_set_at_run_time,omitempty"`
-	Ctor              string `json:"pool_construction"` // setters | settings-struct | set-settings-struct | set-job-queue
+	RetuneStandBy     []int  `json:"stand_by_size_set_at_run_time,omitempty"` // values in 1..Max (inside the quantifier)
+	Ctor              string `json:"pool_construction"`                       // setters | settings-struct | set-settings-struct | set-job-queue
 	InvSetters        bool   `json:"invokable_built_with_setters,omitempty"`
 	KeepQueueOpen     bool
 	Sibling           bool
@@ -145,6 +146,11 @@ func genC09(t *simrt.Tape, tier string) Scenario {
 		n := 1 + t.Choose(6)
 		for i := 0; i < n; i++ {
 			sc.Retune = append(sc.Retune, []int{0, 1, 3, 0, 2}[t.Choose(5)])
+		}
+		if t.Bool(1, 2) && !sc.SlowHandler { // (the slow-handler fault relies on a second stand-by worker)
+			for i := 0; i < n; i++ {
+				sc.RetuneStandBy = append(sc.RetuneStandBy, 1+t.Choose(sc.Max))
+			}
 		}
 	}
 	maxSub, maxJobs := 2, 6
@@ -337,10 +343,17 @@ func (sc *c09Scenario) Run(s *simrt.Sim) {
 	}
 	if len(sc.Retune) > 0 {
 		ths = append(ths, s.Go("retuner", func() {
-			for _, b := range sc.Retune {
+			for i, b := range sc.Retune {
 				b := b
+				if i < len(sc.RetuneStandBy) {
+					sb := sc.RetuneStandBy[i]
+					h.Do("retuner", "SetWorkerSizeStandBy", sb, func() (interface{}, error) { pool.SetWorkerSizeStandBy(sb); return nil, nil })
+				}
 				h.Do("retuner", "SetWorkerBatchSize", b, func() (interface{}, error) { pool.SetWorkerBatchSize(b); return nil, nil })
 				s.Sleep(sc.Unit / 4)
+			}
+			if len(sc.RetuneStandBy) > 0 {
+				h.Do("retuner", "SetWorkerSizeStandBy", sc.StandBy, func() (interface{}, error) { pool.SetWorkerSizeStandBy(sc.StandBy); return nil, nil })
 			}
 			h.Do("retuner", "SetWorkerBatchSize", sc.Batch, func() (interface{}, error) { pool.SetWorkerBatchSize(sc.Batch); return nil, nil })
 		}))
